@@ -15,7 +15,7 @@ LEVEL = "exploration"
 SHARDS = {"quick": 8, "thorough": 16}
 RULE = ("case = (token 64B, key 32B, each passed as bytes or hex string, device nonce, prior state fresh / previously "
         "authenticated with other good credentials / an earlier attempt timed out and its late replies arrived afterwards / the same credentials authenticated more than 12 h ago on this connection, reply mutation). Mutations: genuine; every single-bit flip of the 64-byte "
-        "reply body (512, exhaustive); body length 0/32/63/65/96/128; every packet type nibble 0..15 in place of 1; error "
+        "reply body (512, exhaustive); body length 0/32/63/65/96/128; 1..15 extra bytes with the header's pad nibble set to that count; every packet type nibble 0..15 in place of 1; error "
         "packet; reply built under a different key (random or 1 bit different); hash of a different nonce; silence. Oracle: "
         "genuine => Device.authenticate returns, a following refresh() is decrypted by the model under the new session key and "
         "succeeds, Device.token/key == supplied (hex). Otherwise => AuthenticationError exactly, the model saw nothing but "
@@ -94,6 +94,10 @@ def check_case(case: dict):
         elif kind == "len":
             n = mut[1]
             dev.default_hs_action = ("genuine", {"mutate": lambda body, n=n: (body * 3)[:n]})
+        elif kind == "lenpad":
+            # N extra bytes after the genuine 64, with the header's pad nibble set to N (or to another value)
+            n, nib = mut[1], mut[2]
+            dev.default_hs_action = ("genuine", {"mutate": lambda body, n=n: body + bytes(range(1, n + 1)), "padnibble": nib})
         elif kind == "ptype":
             dev.default_hs_action = ("genuine", {"ptype": mut[1]})
         elif kind == "error":
@@ -158,7 +162,8 @@ def check_case(case: dict):
     vloop.run(main, net)
     if out.get("setup_failed"):
         return ("setup/prior-auth-failed", "could not establish the prior authenticated state")
-    genuine = mut[0] == "genuine" or mut == ["len", 64]      # a 64-byte "length mutation" is the genuine reply
+    # a 64-byte "length mutation", or an untouched body under a different header pad nibble, is the genuine 64-byte reply
+    genuine = mut[0] == "genuine" or mut == ["len", 64] or (mut[0] == "lenpad" and mut[1] == 0)
     if genuine:
         if out["auth"] != "ok":
             return ("genuine/rejected", f"genuine reply rejected: {out.get('auth_msg') or out.get('auth_exc')!r}")
@@ -224,7 +229,7 @@ def run(ctx) -> None:
                 "prior": ["fresh", "authed"][s % 2]}
         others = [p_ for p_ in ("fresh", "authed", "late", "expired") if p_ != base["prior"]]
         muts = [["flip", b] for b in range(512)] + [["len", k] for k in (0, 1, 32, 63, 65, 96, 128)] + \
-               [["ptype", t] for t in range(16) if t != 1] + [["error"], ["wrongkey", "random"], ["othernonce"], ["silence"], ["genuine"]] + \
+               [["ptype", t] for t in range(16) if t != 1] + [["lenpad", k, k] for k in range(1, 16)] + [["lenpad", 0, 5], ["lenpad", 3, 7], ["lenpad", 16, 0]] + [["error"], ["wrongkey", "random"], ["othernonce"], ["silence"], ["genuine"]] + \
                [["wrongkey", b] for b in range(0, 256, 16 if ctx.quick else 1)]
         for m in muts:
             n += 1
@@ -241,7 +246,8 @@ def run(ctx) -> None:
 
     hexb = lambda s_: s_.map(lambda b: b.hex())
     mut = st.one_of(st.just(["genuine"]), st.just(["genuine"]), st.tuples(st.just("flip"), st.integers(0, 511)).map(list),
-                    st.tuples(st.just("len"), st.integers(0, 200).map(lambda n: n if n != 64 else 128)).map(list), st.tuples(st.just("ptype"), st.sampled_from([0, 2, 3, 4, 5, 6, 7, 8, 9, 10, 11, 12, 13, 14, 15])).map(list),
+                    st.tuples(st.just("len"), st.integers(0, 200).map(lambda n: n if n != 64 else 128)).map(list),
+                    st.tuples(st.just("lenpad"), st.integers(1, 40), st.integers(0, 15)).map(list), st.tuples(st.just("ptype"), st.sampled_from([0, 2, 3, 4, 5, 6, 7, 8, 9, 10, 11, 12, 13, 14, 15])).map(list),
                     st.just(["error"]), st.just(["wrongkey", "random"]), st.tuples(st.just("wrongkey"), st.integers(0, 255)).map(list),
                     st.just(["othernonce"]), st.just(["silence"]),
                     st.tuples(st.just("raw"), hexb(st.one_of(st.binary(max_size=90), st.binary(max_size=80).map(lambda b: b"\x83\x70" + bytes([0, len(b) - 2 if len(b) >= 2 else 0, 0x20]) + b)))).map(list))
